@@ -29,6 +29,26 @@ var astWhitelist = []string{
 	"saltpack.IsSaltpackBinarySlice",
 	"saltpack.csprngUint32n",
 	"saltpack.checkDecodedChunkState",
+	"saltpack.attachedSignatureInput",
+	"saltpack.detachedSignatureInput",
+	"saltpack.detachedSignatureInputFromHash",
+	"saltpack.computePayloadHash",
+	"saltpack.computeSigncryptionSignatureInput",
+	"saltpack.computePayloadAuthenticator",
+	"saltpack.computeMACKeyReceiver",
+	"saltpack.computeMACKeySingle",
+	"saltpack.decryptStream_processBlock",
+	"saltpack.signcryptOpenStream_processBlock",
+	"saltpack.verifyStream_processBlock",
+	"saltpack.nonceForChunkSecretBox",
+	"saltpack.nonceForChunkSigncryption",
+	"saltpack.nonceForMACKeyBoxV1",
+	"saltpack.nonceForMACKeyBoxV2",
+	"saltpack.nonceForPayloadKeyBox",
+	"saltpack.nonceForPayloadKeyBoxV2",
+	"saltpack.nonceForDerivedSharedKey",
+	"saltpack.nonceForSenderKeySecretBox",
+	"saltpack.encryptionBlockNumber_check",
 }
 
 type astGen struct {
@@ -76,6 +96,17 @@ func (g *astGen) typeName(t types.Type) string {
 	return t.String()
 }
 
+// recvName: the declared name of a method receiver's type (not its underlying basic type)
+func (g *astGen) recvName(t types.Type) string {
+	if p, ok := t.(*types.Pointer); ok {
+		t = p.Elem()
+	}
+	if n, ok := t.(*types.Named); ok {
+		return n.Obj().Name()
+	}
+	return g.typeName(t)
+}
+
 func isErrorType(t types.Type) bool {
 	if t == nil {
 		return false
@@ -89,6 +120,7 @@ var opNames = map[token.Token]string{
 	token.LAND: "OAnd", token.LOR: "OOr", token.ADD: "OAdd", token.SUB: "OSub", token.MUL: "OMul", token.QUO: "ODiv",
 	token.REM: "OMod", token.AND: "OBand", token.OR: "OBor", token.XOR: "OXor", token.SHL: "OShl", token.SHR: "OShr",
 	token.AND_NOT: "OAndNot",
+	token.AND_NOT_ASSIGN: "OAndNot", token.OR_ASSIGN: "OBor", token.AND_ASSIGN: "OBand", token.XOR_ASSIGN: "OXor",
 	token.ADD_ASSIGN: "OAdd", token.SUB_ASSIGN: "OSub", token.MUL_ASSIGN: "OMul", token.INC: "OAdd", token.DEC: "OSub",
 }
 
@@ -116,7 +148,11 @@ func (g *astGen) expr(e ast.Expr) string {
 			if printable(s) {
 				return fmt.Sprintf("(EStr %s)", coqStr(s))
 			}
-			return "(EUnsup \"non-printable string constant\")"
+			var zs []string
+			for _, c := range []byte(s) {
+				zs = append(zs, fmt.Sprint(int(c)))
+			}
+			return fmt.Sprintf("(EBytesLit [%s])", strings.Join(zs, "; "))
 		}
 	}
 	switch x := e.(type) {
@@ -136,6 +172,16 @@ func (g *astGen) expr(e ast.Expr) string {
 		}
 		return fmt.Sprintf("(EVar %s)", coqStr(x.Name))
 	case *ast.SelectorExpr:
+		if id, ok := x.X.(*ast.Ident); ok {
+			if _, isPkg := g.info.Uses[id].(*types.PkgName); isPkg {
+				if obj := g.info.Uses[x.Sel]; obj != nil {
+					if v, ok := obj.(*types.Var); ok && isErrorType(v.Type()) {
+						return fmt.Sprintf("(EErrVar %s)", coqStr(id.Name+"."+x.Sel.Name))
+					}
+				}
+				return fmt.Sprintf("(EPkg %s)", coqStr(id.Name+"."+x.Sel.Name))
+			}
+		}
 		if obj := g.info.Uses[x.Sel]; obj != nil {
 			if v, ok := obj.(*types.Var); ok && !v.IsField() && v.Pkg() != nil && v.Parent() == v.Pkg().Scope() && isErrorType(v.Type()) {
 				return fmt.Sprintf("(EErrVar %s)", coqStr(g.callName(x)))
@@ -178,7 +224,44 @@ func (g *astGen) expr(e ast.Expr) string {
 	case *ast.CallExpr:
 		// conversion?
 		if tv, ok := g.info.Types[x.Fun]; ok && tv.IsType() && len(x.Args) == 1 {
+			// (*[N]byte)(&x), (*[N]byte)(x): the same bytes
+			if pt, ok := tv.Type.(*types.Pointer); ok {
+				if _, ok := pt.Elem().Underlying().(*types.Array); ok {
+					arg := x.Args[0]
+					if u, ok := arg.(*ast.UnaryExpr); ok && u.Op == token.AND {
+						arg = u.X
+					}
+					return g.expr(arg)
+				}
+			}
+			if n, ok := tv.Type.(*types.Named); ok && isErrorType(n) {
+				return fmt.Sprintf("(ELit %s [(\"0\", %s)])", coqStr(n.Obj().Name()), g.expr(x.Args[0]))
+			}
+			if _, ok := tv.Type.Underlying().(*types.Array); ok {
+				return g.expr(x.Args[0])
+			}
+			if n, ok := tv.Type.(*types.Named); ok {
+				if sl, ok := n.Underlying().(*types.Slice); ok {
+					if b, ok := sl.Elem().(*types.Basic); ok && b.Kind() == types.Byte {
+						return g.expr(x.Args[0])
+					}
+				}
+			}
 			return fmt.Sprintf("(EConv %s %s)", coqStr(g.typeName(tv.Type)), g.expr(x.Args[0]))
+		}
+		if id, ok := x.Fun.(*ast.Ident); ok && id.Name == "make" && len(x.Args) == 2 {
+			return fmt.Sprintf("(ECall \"make\" [%s])", g.expr(x.Args[1]))
+		}
+		if id, ok := x.Fun.(*ast.Ident); ok && id.Name == "append" && len(x.Args) >= 2 {
+			var as []string
+			for _, a := range x.Args {
+				as = append(as, g.expr(a))
+			}
+			nm := "append"
+			if x.Ellipsis.IsValid() {
+				nm = "append..."
+			}
+			return fmt.Sprintf("(ECall %s [%s])", coqStr(nm), strings.Join(as, "; "))
 		}
 		if id, ok := x.Fun.(*ast.Ident); ok && id.Name == "len" && len(x.Args) == 1 {
 			return fmt.Sprintf("(ELen %s)", g.expr(x.Args[0]))
@@ -189,7 +272,7 @@ func (g *astGen) expr(e ast.Expr) string {
 		if sel, ok := x.Fun.(*ast.SelectorExpr); ok {
 			if s := g.info.Selections[sel]; s != nil && s.Kind() == types.MethodVal {
 				args = append(args, g.expr(sel.X))
-				name = g.typeName(s.Recv()) + "." + sel.Sel.Name
+				name = g.recvName(s.Recv()) + "." + sel.Sel.Name
 			}
 		}
 		for _, a := range x.Args {
@@ -265,6 +348,31 @@ func (g *astGen) stmt(s ast.Stmt) string {
 			if id, ok := c.Fun.(*ast.Ident); ok && id.Name == "panic" {
 				return "SPanic (EStr \"panic\")"
 			}
+			// f(x[lo:hi], args...): the callee fills the window of the local array x
+			if len(c.Args) >= 1 {
+				if sl, ok := c.Args[0].(*ast.SliceExpr); ok && !sl.Slice3 {
+					if id, ok := sl.X.(*ast.Ident); ok {
+						name := g.callName(c.Fun)
+						if sel, ok := c.Fun.(*ast.SelectorExpr); ok {
+							if s := g.info.Selections[sel]; s != nil && s.Kind() == types.MethodVal {
+								name = g.recvName(s.Recv()) + "." + sel.Sel.Name
+							}
+						}
+						lo, hi := "None", "None"
+						if sl.Low != nil {
+							lo = "(Some " + g.expr(sl.Low) + ")"
+						}
+						if sl.High != nil {
+							hi = "(Some " + g.expr(sl.High) + ")"
+						}
+						var as []string
+						for _, a := range c.Args[1:] {
+							as = append(as, g.expr(a))
+						}
+						return fmt.Sprintf("SSliceCall %s %s %s %s [%s]", coqStr(name), coqStr(id.Name), lo, hi, strings.Join(as, "; "))
+					}
+				}
+			}
 		}
 		return fmt.Sprintf("SExpr %s", g.expr(x.X))
 	case *ast.IfStmt:
@@ -302,6 +410,21 @@ func (g *astGen) stmt(s ast.Stmt) string {
 		}
 		return fmt.Sprintf("SSwitch %s %s\n      [%s]\n      %s", g.initStmts(x.Init), tag, strings.Join(cases, ";\n       "), dflt)
 	case *ast.AssignStmt:
+		if len(x.Lhs) == 1 && len(x.Rhs) == 1 {
+			if ix, ok := x.Lhs[0].(*ast.IndexExpr); ok {
+				if id, ok := ix.X.(*ast.Ident); ok {
+					op := "None"
+					if x.Tok != token.ASSIGN {
+						o, ok := opNames[x.Tok]
+						if !ok {
+							return "SUnsup \"assignment operator\""
+						}
+						op = "(Some " + o + ")"
+					}
+					return fmt.Sprintf("SIdxOp %s %s %s %s", coqStr(id.Name), g.expr(ix.Index), op, g.expr(x.Rhs[0]))
+				}
+			}
+		}
 		if x.Tok == token.ASSIGN || x.Tok == token.DEFINE {
 			names, ok := g.lhsNames(x.Lhs)
 			if !ok {
@@ -329,6 +452,11 @@ func (g *astGen) stmt(s ast.Stmt) string {
 		if ok && gd.Tok == token.VAR && len(gd.Specs) == 1 {
 			vs := gd.Specs[0].(*ast.ValueSpec)
 			if len(vs.Names) == 1 && len(vs.Values) == 0 {
+				if at, ok := g.info.TypeOf(vs.Type).Underlying().(*types.Array); ok {
+					if b, ok := at.Elem().(*types.Basic); ok && b.Kind() == types.Byte {
+						return fmt.Sprintf("SAssign [%s] [(ECall \"make\" [(EInt (%d))])]", coqStr(vs.Names[0].Name), at.Len())
+					}
+				}
 				return fmt.Sprintf("SVar %s %s", coqStr(vs.Names[0].Name), coqStr(g.typeName(g.info.TypeOf(vs.Type))))
 			}
 			if len(vs.Names) == 1 && len(vs.Values) == 1 {
